@@ -683,6 +683,10 @@ def run_fitted(p, drv, stats):
     except Exception as e:
         res['failures'].append({'signature': f'C09:fit-raises:{type(e).__name__}', 'detail': str(e)[:300]})
         return res
+    if p['seed'] % 2 == 1:
+        # object history: other public calls on other rows (builds and uses the routing cache) before the judged ones
+        from harness.props import _xcommon as xc_
+        xc_.perturb_history(model, p['seed'], X.shape[1])
     # wrap the leaf models by recording proxies; the cache holds references to the models, so drop it
     ident = 0
     for tree in model.trees:
